@@ -289,6 +289,17 @@ mutual
         !(isTextNode n && (match ns with | m :: _ => isTextNode m | [] => false))
 end
 
+/-- the old syntax on the flat token form -/
+def ttokOld : TTok → Str
+  | .text s => s
+  | .xexpr x => '$' :: '{' :: (xexprSrc x ++ ['}'])
+  | .dir d => oldLine d.name (dirSrc d)
+  | .end_ => oldLine kwEnd []
+
+def ttoksOld : List TTok → Str
+  | [] => []
+  | t :: ts => ttokOld t ++ ttoksOld ts
+
 /-! the side condition on the flat token form (implied by `nodesOk`; also covers token lists whose
     blocks are not balanced: `{% if x %}` without `{% end %}`, a stray `{% end %}`) -/
 
@@ -308,5 +319,28 @@ def noAdjText : List TTok → Bool
   | t :: ts => !(isTextTok t && (match ts with | u :: _ => isTextTok u | [] => false)) && noAdjText ts
 
 def ttoksOk (st : Bool) (ts : List TTok) : Bool := ts.all (ttokOk st) && noAdjText ts
+
+/-! ### the side condition of the old syntax: the line discipline -/
+
+def endsNl (s : Str) : Bool := s.getLast? == some '\n'
+
+/-- every directive line starts a line (`bol`: the position is the start of a line) -/
+def lineStarts : Bool → List TTok → Bool
+  | _, [] => true
+  | _, .text s :: r => lineStarts (endsNl s) r
+  | _, .xexpr _ :: r => lineStarts false r
+  | bol, .dir _ :: r => bol && lineStarts true r
+  | bol, .end_ :: r => bol && lineStarts true r
+
+def noHash : TTok → Bool
+  | .text s => s.all (fun c => c != '#')
+  | _ => true
+
+def ttoksOkOld (st : Bool) (ts : List TTok) : Bool :=
+  ttoksOk st ts && ts.all noHash && lineStarts true ts
+
+/-- the side condition on the AST -/
+def nodesOkOld (st : Bool) (ns : List TNode) : Bool :=
+  nodesOk st ns && (toTokss ns).all noHash && lineStarts true (toTokss ns)
 
 end Genshi.Tmpl.Print
